@@ -39,12 +39,16 @@ type entry struct {
 	label  string
 	doc    bool // documented as supported (docs/content): both oracles apply
 	leaves []tleaf
+	key    string // defect key if it differs from the label (see defectKey)
 }
 
 // defectKey names the disagreement an entry belongs to: entries that can only fail together (the two
 // services sharing one respond section, an option of a type the schema does not know) share a key,
 // every other entry is its own class.
 func (e entry) defectKey() string {
+	if e.key != "" {
+		return e.key
+	}
 	l := e.label
 	for _, g := range []struct{ contains, key string }{
 		{"error_handlers.www_authenticate", "error_handlers.www_authenticate"},
@@ -249,6 +253,8 @@ func (h *harness) runEntry(e entry) {
 			if h.judge(crep, sigSplit, fo, eo, t, f.env, func() map[string]string { return wo.Leaves }) {
 				r.Count("table_entries_equal_from_file_and_environment", 1)
 			}
+		case rep.SchemaOK:
+			r.Count("table_entries_consistently_accepted", 1)
 		default:
 			r.Count("table_entries_consistently_rejected", 1)
 		}
@@ -267,6 +273,10 @@ func (h *harness) runTable() {
 	for _, e := range h.tableEntries() {
 		h.runEntry(e)
 	}
+	for _, e := range h.enumEntries() {
+		h.runEntry(e)
+		h.r.Count("table_entries_enumerated_values", 1)
+	}
 	h.r.Set("table_entries_undecided", h.undecided)
 }
 
@@ -275,7 +285,9 @@ func (h *harness) runTable() {
 func (h *harness) tableEntries() []entry {
 	w := h.w
 	var es []entry
-	add := func(label string, doc bool, ls ...[]tleaf) { es = append(es, entry{label, doc, cat(ls...)}) }
+	add := func(label string, doc bool, ls ...[]tleaf) {
+		es = append(es, entry{label: label, doc: doc, leaves: cat(ls...)})
+	}
 
 	// minimal catalogue the schema accepts: one authenticator, one finalizer
 	base := cat(kv("mechanisms.authenticators.0", "id", "a0", "type", "anonymous"), kv("mechanisms.finalizers.0", "id", "f0", "type", "noop"))
